@@ -246,7 +246,7 @@ def part_bc(spec, rng, counters, digests, samples, violations, known):
             f = ls.step(op, exp)
             if f:
                 bad = True
-                if not (f["kind"] == "mismatch" and kf.is_open("KF1", ID) and mgrmon.has_structural_cycle(ls.runner.mgr)):
+                if not (f["kind"] == "mismatch" and kf.is_open("KF1", ID) and mgrmon.shadow_structural_cycle(hg.shadow, ls.runner)):
                     violations.append({"what": "C11 history (C01 oracle) failed: %s" % (f,), "world": hg.world, "ops": list(ls.ops)})
                 break
         if bad:
@@ -349,7 +349,7 @@ def part_bc(spec, rng, counters, digests, samples, violations, known):
             continue
         # mirrored follow-up assignments
         only_r = mode.startswith("copy")
-        if mgrmon.has_structural_cycle(twin.mgr) or mgrmon.has_structural_cycle(real.mgr):
+        if relab and (mgrmon.has_structural_cycle(twin.mgr) or mgrmon.has_structural_cycle(real.mgr)):
             # rebinding a label to a nested reference puts every definition inside one container: the
             # ordering graph gets structural cycles (open finding KF1) and run order, hence values, become
             # schedule dependent; definitions were compared above, behaviour is not comparable here
